@@ -136,6 +136,7 @@ type retInfo struct {
 	reach *Term
 	st    *State
 	vals  []Val
+	block *ssa.BasicBlock
 }
 
 type Frame struct {
@@ -203,6 +204,13 @@ func (fr *Frame) run(entryReach *Term, entry *State) []retInfo {
 		cs := in[b]
 		if len(cs) == 0 {
 			continue
+		}
+		if fr.depth == 0 {
+			vc.curBlock = b
+			vc.blockMarks = append(vc.blockMarks, blockMark{len(vc.cmds), b})
+			if vc.cfReach == nil {
+				vc.cfReach = acyclicReach(fn, li)
+			}
 		}
 		reach, st := fr.merge(b, cs)
 		if l := li.loops[b]; l != nil {
@@ -291,6 +299,14 @@ func (fr *Frame) edge(from *ssa.BasicBlock, to *ssa.BasicBlock, reach *Term, st 
 		for _, l := range li.loops {
 			if l.Blocks[from] && !l.Blocks[to] {
 				if ls := fr.loopSpec(l); ls != nil {
+					for i, ex := range ls.Leaves {
+						// the edge leaves the loop's CFG cycle but may enter a block that still belongs to the loop
+						// statement (the statements before a break); those are handled when that block is left
+						if fr.inLoopStmt(l, to) {
+							continue
+						}
+						fr.leaveAssert(l, ex, i, reach, st)
+					}
 					for i, ex := range ls.Exits {
 						sc := fr.invScope(l, st)
 						t, err := sc.compileBool(ex.Expr)
@@ -299,6 +315,19 @@ func (fr *Frame) edge(from *ssa.BasicBlock, to *ssa.BasicBlock, reach *Term, st 
 							continue
 						}
 						fr.vc.oblige(fmt.Sprintf("exit%d", l.Ordinal), clauseLabel(ex, i), reach, t, l.Pos, ex.Src, ex.Props, "")
+						fr.vc.assume(reach, t) // proved on this edge, so available after it (a cut)
+					}
+				}
+			}
+		}
+	}
+	if fr.fc != nil {
+		// edges from a break block (outside the cycle, inside the loop statement) to the code after the loop
+		for _, l := range li.loops {
+			if !l.Blocks[from] && fr.inLoopStmt(l, from) && !l.Blocks[to] && !fr.inLoopStmt(l, to) {
+				if ls := fr.loopSpec(l); ls != nil {
+					for i, ex := range ls.Leaves {
+						fr.leaveAssert(l, ex, i, reach, st)
 					}
 				}
 			}
@@ -309,6 +338,35 @@ func (fr *Frame) edge(from *ssa.BasicBlock, to *ssa.BasicBlock, reach *Term, st 
 		return
 	}
 	in[to] = append(in[to], contrib{reach, st})
+}
+
+func (fr *Frame) leaveAssert(l *Loop, ex *Clause, i int, reach *Term, st *State) {
+	sc := fr.invScope(l, st)
+	t, err := sc.compileBool(ex.Expr)
+	if err != nil {
+		fr.vc.Errors = append(fr.vc.Errors, fmt.Sprintf("loop %d leave assertion %d: %v", l.Ordinal, i+1, err))
+		return
+	}
+	fr.vc.oblige(fmt.Sprintf("leave%d", l.Ordinal), clauseLabel(ex, i), reach, t, l.Pos, ex.Src, ex.Props, "")
+	fr.vc.assume(reach, t)
+}
+
+// inLoopStmt: b lies outside the loop's cycle but all its positioned instructions are inside the source extent
+// of the loop statement (the block of a `...; break`).
+func (fr *Frame) inLoopStmt(l *Loop, b *ssa.BasicBlock) bool {
+	if l.Blocks[b] || l.Node == nil {
+		return false
+	}
+	n := 0
+	for _, in := range b.Instrs {
+		if p := in.Pos(); p.IsValid() {
+			if p < l.Node.Pos() || p >= l.Node.End() {
+				return false
+			}
+			n++
+		}
+	}
+	return n > 0
 }
 
 // ---------------------------------------------------------------------------
@@ -492,7 +550,7 @@ func (fr *Frame) modVarsOfBlocks(blocks map[*ssa.BasicBlock]bool) *ModSet {
 	// ghost variables assigned by `set` statements anchored at a call inside this region
 	if fr.depth == 0 && fr.vc.fc != nil {
 		for _, gs := range fr.vc.fc.Ghost {
-			if gs.When == "entry" || gs.Assert != nil {
+			if gs.When == "entry" || gs.Assert != nil || gs.Cut {
 				continue
 			}
 			for b := range blocks {
@@ -699,7 +757,7 @@ func (fr *Frame) block(b *ssa.BasicBlock, reach *Term, st *State, li *loopInfo, 
 			for _, r := range ins.Results {
 				vals = append(vals, fr.val(r, st))
 			}
-			fr.rets = append(fr.rets, retInfo{reach, st, vals})
+			fr.rets = append(fr.rets, retInfo{reach, st, vals, fr.vc.curBlock})
 			return
 		case *ssa.Panic:
 			if fr.fc == nil || !fr.fc.MayPanic {
@@ -1203,4 +1261,27 @@ func allocRoot(v ssa.Value) *ssa.Alloc {
 			return nil
 		}
 	}
+}
+
+// acyclicReach: reach[x][y] = block y can be reached from block x without taking a loop back edge.
+func acyclicReach(fn *ssa.Function, li *loopInfo) map[int]map[int]bool {
+	out := map[int]map[int]bool{}
+	var dfs func(root int, b *ssa.BasicBlock)
+	dfs = func(root int, b *ssa.BasicBlock) {
+		if out[root][b.Index] {
+			return
+		}
+		out[root][b.Index] = true
+		for _, s := range b.Succs {
+			if li.backEdge[[2]int{b.Index, s.Index}] {
+				continue
+			}
+			dfs(root, s)
+		}
+	}
+	for _, b := range fn.Blocks {
+		out[b.Index] = map[int]bool{}
+		dfs(b.Index, b)
+	}
+	return out
 }
